@@ -17,7 +17,9 @@ from vf.props import c02
 
 ID = "C11"
 LEVEL = "exploration"
-RULE = ("products on the tracing filesystem (vfs://): per case one image (both sample types, lines 1..300, rpc classes 1/div/"
+RULE = ("(a third of the cases through fsspec buffered files with block sizes 64..65536; half with filled ScanSAR burst / pixel-range header fields; "
+        "one image larger than 128 MiB) "
+        "products on the tracing filesystem (vfs://): per case one image (both sample types, lines 1..300, rpc classes 1/div/"
         "nondiv/N-1/N/N+1/2^40) opened once (open-time log checked) and loaded through seeded C02-style selections "
         "(ints, slices incl. negative steps, lists, masks, vectorised, sel), plus an exhaustive int/slice block on small images; "
         "each load's event log is checked offline. non-trivial = a load that issued at least one read; distinct = distinct "
